@@ -97,8 +97,7 @@ def NSNode.wellB : Scope → NSNode → Bool
   | scope, .elem pfx loc _ attrs _ kids cpfx cloc _ =>
     attrsWellNsB (scope.push (declsOf attrs)) attrs &&
     ((scope.push (declsOf attrs)).lookup pfx.text).isSome &&
-    cloc.text == loc.text &&
-    (scope.push (declsOf attrs)).lookup cpfx.text == (scope.push (declsOf attrs)).lookup pfx.text &&
+    cpfx.text == pfx.text && cloc.text == loc.text &&
     noAdjCharsNs kids && wellListB (scope.push (declsOf attrs)) kids
   | scope, .empty pfx _ _ attrs _ =>
     attrsWellNsB (scope.push (declsOf attrs)) attrs && ((scope.push (declsOf attrs)).lookup pfx.text).isSome
